@@ -1472,7 +1472,7 @@ class DiskRefsContainer(RefsContainer):
         ensure_dir_exists(os.path.dirname(filename))
         self._remove_empty_dirs_in_the_way(filename)
         with GitFile(filename, "wb") as f:
-            if os.path.exists(filename) or name in self.get_packed_refs():
+            if os.path.exists(filename) or realname in self.get_packed_refs():
                 f.abort()
                 return False
             try:
